@@ -19,6 +19,8 @@ P = {
                   "generator makes each single rule observable on the real parser.",
     "level_note": "Producer side (Builder, BuildFromMap, Fragment, reassembly, status reports, pongs, metadata bundles): the theorem "
                   "C02_valid_accepted says whatever passes CheckValid is accepted by the parser; that each producer's output "
-                  "passes is checked on real outputs by C02produce with the model decoder as oracle (the builder's call-sequence "
-                  "semantics is not modelled: partial for that clause).",
+                  "passes is proved for the builder (Model/Builder.v: every Build of every call sequence, C02_builder_*; replayed "
+                  "against the real builder by C02builder) and for fragmentation / reassembly / forwarding / status reports by the "
+                  "models of C09, C10, C06 and C15; BuildFromMap (unspecified map iteration order) and the routing-metadata "
+                  "bundles are judged on real outputs by C02produce / C02node with the model decoder as oracle.",
 }
